@@ -819,6 +819,68 @@ def short_fields(fs):
     return ','.join('%s:%s' % (n, s(t)) for n, t in fs)
 
 
+def kind_at(fields, names):
+    """'i' / 'u' for a primitive member at this path of member names, 'obj' for an object, None if there is none"""
+    fs = fields
+    t = None
+    for n in names:
+        t = dict(fs).get(n) if fs is not None else None
+        if t is None:
+            return None
+        fs = t['fields'] if t['k'] == 'obj' else None
+    return t['leaf'] if t['k'] == 'prim' else 'obj'
+
+
+def confusing_pairs(g, fields, delim, rng, strict):
+    """a conformant request whose keys are then spelled inconsistently: indexes on members that are not
+    arrays, array members without their index, the same member both ways, changed indexes, 'empty' markers
+    on objects and arrays that also have members set below them (the marker replaces the object), broken
+    tails, duplicates.  Every such request must end in a value or a Client.ValidationError."""
+    sv = g.topval(fields, contiguous=strict)
+    pairs = spell(fields, decide(fields, sv, rng), delim)
+    if not pairs:
+        return malformed_pairs(g, fields, delim, rng)
+    seg_re = re.compile(r'^(.*?)((?:\[\d+\])*)$')
+    out = []
+    for key, val in pairs:
+        segs = key.split(delim) if delim in key else [key]
+        r = rng.random()
+        if r < 0.45:
+            j = rng.randrange(len(segs))
+            name, idx = seg_re.match(segs[j]).groups()
+            c = rng.random()
+            if idx and c < 0.35:
+                segs[j] = name                                   # array member without its index
+            elif idx and c < 0.6:
+                segs[j] = '%s[%d]' % (name, rng.choice([0, 1, 2, 5, 11]))
+            elif c < 0.85:
+                segs[j] = '%s[%d]' % (segs[j], rng.choice([0, 1, 3, 5]))    # one index more (also on non-arrays)
+            else:
+                segs[j] = segs[j] + rng.choice(['[', '[]', ']', '[x]'])
+            out.append((delim.join(segs), val))
+            if rng.random() < 0.4:
+                out.append((key, val))                           # and the regular spelling as well
+        else:
+            out.append((key, val))
+        if rng.random() < 0.35:
+            # an 'empty' marker (or something else) on a prefix of the key, with or without indexes
+            j = rng.randrange(1, len(segs) + 1)
+            pre = segs[:j]
+            if rng.random() < 0.5:
+                pre = [seg_re.match(x).group(1) if rng.random() < 0.5 else x for x in pre]
+            if rng.random() < 0.3:
+                pre[-1] = '%s[%d]' % (pre[-1], rng.choice([0, 1, 2, 5]))
+            names = [seg_re.match(x).group(1) for x in pre]
+            if kind_at(fields, names) == 'i':      # Integer leaves keep to integer texts (leaf codecs are C08)
+                out.append((delim.join(pre), str(rng.randint(-9, 99))))
+            else:
+                out.append((delim.join(pre), rng.choice(['empty', 'empty', 'empty', '', 'x'])))
+        if rng.random() < 0.1:
+            out.append((key + delim + 'zz', 'empty'))
+    rng.shuffle(out)
+    return out[:24]
+
+
 def malformed_pairs(g, fields, delim, rng):
     """keys around the notation: unknown members, missing / surplus / huge / duplicate indexes,
     broken brackets, 'empty' markers everywhere, repeated single-valued keys"""
@@ -864,17 +926,41 @@ def malformed_pairs(g, fields, delim, rng):
     return pairs
 
 
+def malformed_corpus():
+    """fixed malformed requests: an 'empty' marker replaces an object whose array member already has an index
+    map (a[0]_p[1]..., then a[1]=empty, then a_p[2]=empty, a_p_val[5]_q=1: before the 9001 fix the new list
+    could reuse the id of the dropped one and inherit its map -> IndexError out of the WSGI application)"""
+    P = lambda **kw: dict({'k': 'prim', 'arr': False, 'leaf': 'u', 'style': 'M'}, **kw)
+    O = lambda cid, fs, arr=False: {'k': 'obj', 'arr': arr, 'style': 'M', 'cid': cid, 'fields': fs}
+    val = O(900021, [('i', P(arr=True)), ('q', P(leaf='i'))])
+    p = O(900022, [('a', P()), ('val', val)], arr=True)
+    q = O(900023, [('it', P(arr=True))], arr=True)
+    A = O(900024, [('a', P(arr=True)), ('p', p), ('q', q)])
+    f1 = [('a', A)]
+    return [
+        (f1, '_', False, 'a[0]_p[%31]%5Fval%5Fq=78&%61%5B%31%5D=e%6Dp%74y&a_p_val[%35]_%71=1&a=&a_%70[%32%5d=e%6Dpt%79&&'
+                         'a[1]_p%5b3]_a_zz=empt%79&a%5fq%5b0]=e%6Dpty&a_q%5B0]=empty&a[5]%5fq[11%5D%5fit[=empty'),
+        (f1, '_', False, 'a_p[3]_a=x&a[1]=empty&a_p[2]=empty&a_p[7]_a=y&a_p[5]_val_q=1'),
+        (f1, '_', True, 'a_p[0]_a=x&a[1]=empty&a_p[2]=empty&a_p[0]_val_q=1&a_p_a=z'),
+        (f1, '_', False, 'a_q[4]_it=1&a_q[4]_it[0]=2&a_q_it=3&a[0]_q[4][1]_it=4&a_q[2]=empty&a_q=empty&a=empty&a_q[9]_it=5'),
+    ]
+
+
 def corr_get(check, impl, tier):
     rng = check.rng
     g = Gen(rng)
     n_valid = 400 if tier == 'quick' else 1600
     n_bad = 300 if tier == 'quick' else 1200
     cases = []
-    for i in range(n_valid + n_bad):
+    corpus = malformed_corpus()
+    for i in range(n_valid + n_bad + len(corpus)):
         fields = g.signature()
         delim = rng.choice(DELIMS)
         strict = rng.random() < 0.4
         valid = i < n_valid
+        fixed_qs = None
+        if i >= n_valid + n_bad:
+            fields, delim, strict, fixed_qs = corpus[i - n_valid - n_bad]
         if valid:
             validator = rng.choice([None, 'soft'])
             sv = g.topval(fields, contiguous=strict)
@@ -883,9 +969,17 @@ def corr_get(check, impl, tier):
             spec_tie_case(check, strict, delim, fields, dv, pairs)
         else:
             validator = None
-            pairs = malformed_pairs(g, fields, delim, rng)
-        qs = encode_qs(pairs, rng) if pairs else ''
+            pairs = confusing_pairs(g, fields, delim, rng, strict) if i % 2 else malformed_pairs(g, fields, delim, rng)
+        qs = fixed_qs if fixed_qs is not None else (encode_qs(pairs, rng) if pairs else '')
         o, problems = observe_get(impl, fields, delim, strict, validator, qs)
+        if not valid and o[0] == 'crash':
+            # direct oracle: whatever the query string, a GET ends in a call or in a Client.ValidationError;
+            # no exception may escape the WSGI application and no 500 may be produced
+            check.fail('C03|GET-malformed|exception-escapes|%s' % (o[1],),
+                       'GET ?%s (hier_delim=%r strict_arrays=%s fields=%s): %r' % (
+                           qs[:300], delim, strict, short_fields(fields), o[1:]),
+                       {'kind': 'malformed', 'fields': fields, 'delim': delim, 'strict': strict, 'validator': validator,
+                        'qs': qs, 'observed': list(o)})
         desc = 'GET strict=%s validator=%s delim=%r fields=%s qs=%r -> %s' % (
             strict, validator, delim, short_fields(fields), qs, json.dumps(o)[:300])
         cases.append(('(%s, %s, %s, %s, %s)' % (gbool(strict), gtext(delim), gfields(fields), gtext(qs), gobs(o)), desc))
@@ -1157,7 +1251,9 @@ def run(check):
                   '0-13, sparse or contiguous increasing indexes, primitive arrays as repeated or indexed keys), every '
                   'pair permutation for <= 4 distinct keys and seeded permutations above, 6 hier_delim choices, '
                   'strict_arrays on/off, validator None/soft, percent-encoding variants; plus a malformed-key stream '
-                  'for the model correspondence; a case is distinct by (entry point, configuration, signature, query '
+                  '(unknown members, broken brackets, and conformant requests re-spelled inconsistently: indexes on '
+                  'non-arrays, arrays without index, both spellings, empty markers over set members, duplicates) for '
+                  'the model correspondence and the no-exception-escapes oracle; a case is distinct by (entry point, configuration, signature, query '
                   'string)')
     check.trusted = list(lib.COMMON_TRUSTED) + [
         'proved (Props/C03.v, closed under the global context): index order for every arrival order (s2cmi_rank); '
@@ -1173,7 +1269,8 @@ def run(check):
         "'empty' marker, the index format, the separators of _parse_qs; compared by the source_flags correspondence: "
         'the sort key of the main loop and the visited-set of get_simple_type_info_with_prot',
         'primitive leaves are kept as text in the model: Unicode and canonical-decimal Integer members only (leaf codecs are C08)',
-        'idxmap[id(list)] is modelled as a component of the array value (one map per live list object)',
+        'idxmap[id(list)] is modelled as a component of the array value (one map per list object; the repaired tree '
+        'keeps every such list referenced so that an id cannot be reused during the call)',
         'the Python twins of Spec.spell / Spec.compact_fields / Spec.typed_obj used by the direct oracle are compared '
         'with the Coq definitions on every run (spec_tie, flatten correspondences), together with wf_sig and conf_fields '
         'of every generated conformant case: the theorems apply to the generated cases',
@@ -1241,6 +1338,14 @@ def replay(check, path):
         ok = o[0] == 'ok' and not problems and first_diff(['O', case['expected']], ['O', o[1]]) is None
         print('REPRODUCED' if not ok else 'does not reproduce')
         return 0 if ok else 1
+    if kind == 'malformed':
+        impl = Impl()
+        fields = fix_fields(case['fields'])
+        o, problems = observe_get(impl, fields, case['delim'], case['strict'], case['validator'], case['qs'])
+        print('query string :', case['qs'])
+        print('observed now :', json.dumps(o))
+        print('REPRODUCED' if o[0] == 'crash' else 'does not reproduce')
+        return 0 if o[0] != 'crash' else 1
     if kind == 'unspellable':
         impl = Impl()
         fields = fix_fields(case['fields'])
